@@ -163,9 +163,23 @@ pub fn run(ctx: &Ctx, rep: &mut Report) {
             rep.finding("oracle", "emitted-function-does-not-reload", &src, &format!("reloaded value is not a function: {}", short(&text)), "c05.reload");
             continue;
         }
+        // structure: the body text of a function that captured nothing re-parses to its own body
+        // (the reload has the same tree, not merely the same results on the sampled arguments)
+        if let (Value::Lambda(p0), Value::Lambda(p2)) = (f, f2) {
+            let (h0, h2) = (sess.heap.borrow(), heap2.borrow());
+            if let (HeapValue::Lambda(d0), HeapValue::Lambda(d2)) = (p0.reify(&h0), p2.reify(&h2)) {
+                if d0.scope.is_empty() {
+                    rep.count("structural-reload-checks");
+                    if wire::expr(&d0.body) != wire::expr(&d2.body) || wire::largs(&d0.args) != wire::largs(&d2.args) {
+                        rep.finding("oracle", "reloaded-function-has-another-body", &src, &format!("emitted={} original body={} reloaded body={}", short(&text), short(&wire::expr(&d0.body)), short(&wire::expr(&d2.body))), "c05.structure");
+                    }
+                }
+            }
+        }
         // second generation: emit the reloaded function and reload again
         let gen2 = SerializableValue::from_value(&f2, &heap2.borrow()).ok().and_then(|s| reload(&s).ok());
-        let tuples: Vec<Vec<f64>> = vec![vec![0.0], vec![1.0], vec![-2.5], vec![7.0, 3.0], vec![], vec![2.0, 1.0, 5.0]];
+        // arguments on which regrouping of + or * changes the rounded result are included
+        let tuples: Vec<Vec<f64>> = vec![vec![0.0], vec![1.0], vec![-2.5], vec![7.0, 3.0], vec![], vec![2.0, 1.0, 5.0], vec![0.1], vec![0.1, 0.2], vec![1e16, 1.0], vec![1e-16], vec![3.3, 1.1, 0.7]];
         for args in tuples.iter() {
             let a = apply(&sess.heap, f, args);
             let b = apply(&heap2, f2, args);
